@@ -82,13 +82,18 @@ func wildcardMatch(pat []byte, str []byte) bool {
 		}
 
 		if pat[0] == '*' {
+			// Skip this and any consecutive asterisks, as OpenSSH's
+			// match_pattern does: a run of '*' matches like a single one.
+			for len(pat) > 0 && pat[0] == '*' {
+				pat = pat[1:]
+			}
 			// A trailing '*' also matches the empty string.
-			if len(pat) == 1 {
+			if len(pat) == 0 {
 				return true
 			}
 
 			for j := range str {
-				if wildcardMatch(pat[1:], str[j:]) {
+				if wildcardMatch(pat, str[j:]) {
 					return true
 				}
 			}
